@@ -52,6 +52,10 @@ CLAIMED = {
          "Structural clauses: no loop of fibertree/ leaves on every path through its body (descent loops visit every child); every loop-indexed element store addresses a true position; the five coordinate styles are handled by all four dispatch chains with equal key sets; swizzleRanks extracts with a raw DFS, permutes through guide and rebuilds ascending through Fiber.append; swapRanks = flatten(pair)/sort reversed/unflatten; every transform returns Tensor.fromFiber(...). Coordinate images, inverse round trips and merge reductions are NOT decided.",
          "Trusts: sort/bisect semantics; pure merge_fn/trans_fn.",
          "DESIGN.md section 3, C09"),
+ "C14": ("sibling cross-check of hand-copied carry-over blocks against one requirement table (CFG must-pass-through per attribute, def-use provenance of the shape argument), table check of every lazy-result builder, owner-first dominance in attribute queries",
+         "Every tensor transform (6 producers) must hand name, colour, mutability, leaf default, per-rank formats and an authoritative-derived shape to its result on every path to the return; every lazy-result builder (10 fromIterator producers) must carry the rank id / active range / default the operation defines; Fiber attribute queries ask the owner first; Rank.getShape(authoritative=True) yields None for estimated shapes. Coordinates inside shape / active range (values) are NOT decided.",
+         "Trusts: the requirement table written from the property text (sa/rules/c14.py).",
+         "DESIGN.md section 3, C14"),
 }
 
 NOT_APPLICABLE = {
